@@ -1,3 +1,23 @@
+//! Properties of the Node's event processing pipeline (`p2panda::processor`).
+//!
+//! C14 and C04 need the verification hooks H1 / H2 in /repo/p2panda (`p2sim-pipe/hooks/*.diff`);
+//! they sit behind the cargo feature `hooks` so that this crate builds before the hooks are
+//! committed.
+
+#[cfg(feature = "hooks")]
+pub mod c04;
+#[cfg(feature = "hooks")]
+pub mod c14;
+#[cfg(feature = "hooks")]
+pub mod nodeops;
+
 pub fn all() -> Vec<&'static dyn simcore::Property> {
-    vec![]
+    #[allow(unused_mut)]
+    let mut props: Vec<&'static dyn simcore::Property> = vec![];
+    #[cfg(feature = "hooks")]
+    {
+        props.push(&c14::C14);
+        props.push(&c04::C04);
+    }
+    props
 }
